@@ -33,9 +33,23 @@ def producers(ctx, rule='A5'):
     canon = {norm(a.targets[0]) for a in walk_fn(fn) if isinstance(a, ast.Assign) and
              '_get_inactive_value(' in norm(a.value)}
 
+    def where_call(a, arr):
+        # `<arr> = np.where(<cond>, <arr...>, <canonical values>)`: the vectorised form of the same replacement
+        v = a.value if isinstance(a, ast.Assign) else None
+        if isinstance(v, ast.Call) and call_name(v) == 'where' and len(v.args) == 3 and \
+                isinstance(a.targets[0], ast.Name) and a.targets[0].id == arr and \
+                any(isinstance(x, ast.Name) and x.id == arr for x in ast.walk(v.args[1])) and \
+                ('_get_inactive_value(' in norm(v.args[2]) or norm(v.args[2]) in canon):
+            return v
+        return None
+
     def is_imputation(n, arr):
         a = n.ast
-        return n.kind == 'stmt' and isinstance(a, ast.Assign) and isinstance(a.targets[0], ast.Subscript) and \
+        if n.kind != 'stmt' or not isinstance(a, ast.Assign):
+            return False
+        if where_call(a, arr) is not None:
+            return True
+        return isinstance(a.targets[0], ast.Subscript) and \
             norm(a.targets[0].value) == arr and ('_get_inactive_value(' in norm(a.value) or norm(a.value) in canon)
     ok, i_act, i_imp, imps, act = False, -1, -1, [], None
     for d in defs:
@@ -59,14 +73,19 @@ def producers(ctx, rule='A5'):
             return True
         return isinstance(sel, ast.UnaryOp) and isinstance(sel.op, ast.Invert) and act is not None and \
             t_.startswith(f'~{act}[')
-    ok = bool(imps) and all(isinstance(s_.ast.targets[0].slice, ast.Tuple) and
-                            marked_rows(s_.ast.targets[0].slice.elts[0]) for s_ in imps)
+    def replaces_marked(s_):
+        w = where_call(s_.ast, norm(s_.ast.targets[0])) if isinstance(s_.ast.targets[0], ast.Name) else None
+        if w is not None:       # np.where(<activeness>, <table>, <canonical>): keeps active entries
+            return act is not None and norm(w.args[0]) == act
+        return isinstance(s_.ast.targets[0].slice, ast.Tuple) and marked_rows(s_.ast.targets[0].slice.elts[0])
+    ok = bool(imps) and all(replaces_marked(s_) for s_ in imps)
     ctx.ob(rule, fkey(fn, rule, 'enumeration-imputes-canonical'), ok, fn.where,
            'the enumeration imputes exactly the marked entries with _get_inactive_value of that variable', '')
     # the table is created with an integer dtype, the canonical inactive value of a continuous variable is a
     # fraction (midpoint of the bounds): the table is widened to float before anything fractional is stored in it
     if imps:
-        arr_ = norm(imps[0].ast.targets[0].value)
+        t0 = imps[0].ast.targets[0]
+        arr_ = norm(t0.value) if isinstance(t0, ast.Subscript) else norm(t0)
         int_created = [a for a in walk_fn(fn) if isinstance(a, ast.Assign) and norm(a.targets[0]) == arr_ and
                        any(isinstance(c, ast.Call) and (k := kwarg(c, 'dtype')) is not None and
                            norm(k) in ('int', 'np.int64', 'np.int32', 'np.int_') for c in ast.walk(a.value))]
@@ -80,6 +99,13 @@ def producers(ctx, rule='A5'):
                      norm(n.ast.targets[0]) == arr_ and isinstance(n.ast.value, ast.Call) and
                      call_name(n.ast.value) == 'astype' and n.ast.value.args and
                      norm(n.ast.value.args[0]) in ('float', 'np.float64', 'np.float_', 'np.double')]
+            # a np.where whose table operand is converted in place (`x.astype(float)`) produces a float table itself
+            def self_widening(s_):
+                w = where_call(s_.ast, arr_)
+                return w is not None and any(isinstance(c, ast.Call) and call_name(c) == 'astype' and c.args and
+                                             norm(c.args[0]) in ('float', 'np.float64', 'np.float_', 'np.double')
+                                             for c in ast.walk(w.args[1]))
+            widen = widen + [s_ for s_ in imps if self_widening(s_)]
             guards.check_passes(ctx, rule, fn, imps, widen, 'enumeration-table-float-before-imputation',
                                 'the enumeration table (created with an integer dtype) is converted to float before '
                                 'the canonical inactive values - fractions for continuous variables - are stored in '
